@@ -587,10 +587,60 @@ def semaphore_scenarios(protos=('v2',)):
     return out
 
 
+def random_scenarios(rng, n, protos=('v2', 'loose', 'v1', 'auto')):
+    """seeded random scripts over all step kinds: calls (some with their own time-out), buffer
+    full / drained, cancellations, time passing (also beyond max_send_delay = 20 and
+    sent_request_timeout = 30), answers (also malformed-with-id), replays, unknown ids, the
+    connection lost - in any order"""
+    out = []
+    for k in range(n):
+        proto = protos[k % len(protos)]
+        ncalls = rng.randint(2, 7)
+        calls = []
+        for _ in range(ncalls):
+            own = [rng.choice([3, 5, 8])] if rng.random() < 0.25 else []
+            if proto == 'v1' or rng.random() < 0.6:
+                calls.append(['req'] + own)
+            else:
+                ms = ''.join(rng.choice('rrn') for _ in range(rng.randint(1, 3)))
+                calls.append(['batch', ms, int(rng.random() < 0.3)] + own)
+        script, started, paused = [], [], False
+        todo = list(range(ncalls))
+        for _ in range(rng.randint(ncalls + 2, 3 * ncalls + 8)):
+            r = rng.random()
+            if todo and r < 0.30:
+                i = todo.pop(0)
+                started.append(i)
+                script.append(['call', i])
+            elif r < 0.40:
+                script.append(['resume'] if paused else ['pause'])
+                paused = not paused
+            elif r < 0.48 and started:
+                script.append(['cancel', rng.choice(started)])
+            elif r < 0.56:
+                script.append(['advance', rng.choice([1, 2, 4, 6, 9, 12, 25, 35])])
+            elif r < 0.82 and started:
+                script.append(['answer', rng.choice(started), 'mal' if rng.random() < 0.12 else 'ok'])
+            elif r < 0.90 and started:
+                script.append(['dup', rng.choice(started)])
+            elif r < 0.95:
+                script.append(['unknown'])
+            elif r < 0.97:
+                script.append(['lost'])
+        if paused and rng.random() < 0.8:
+            script.append(['resume'])
+        script += [['call', i] for i in todo]
+        script += [['answer', i, 'ok'] for i in range(ncalls) if rng.random() < 0.8]
+        out.append({'layer': 'session', 'proto': proto, 'calls': calls, 'script': script,
+                    'seed': rng.randrange(10**6)})
+    return out
+
+
 def scenarios(rng, n, tier='quick'):
     out = basic_scenarios(rng, n)
     out += reply_scenarios()
     out += semaphore_scenarios(('v2',) if tier == 'quick' else ('v2', 'loose', 'v1', 'auto'))
+    out += random_scenarios(rng, 5 * n)
     if tier == 'quick':
         out += backpressure_scenarios(('v2', 'loose', 'v1', 'auto'), laters=(0, 2, 3))
     else:
